@@ -231,10 +231,16 @@ Definition expected_events (raw : str) (unknown : list N) (os : list cocc) (miss
   map (expected_event raw unknown) os
   ++ match missing with Some i => [expected_missing raw i] | None => [] end.
 
+(* the option is one of the option string (not an unknown letter) *)
+Definition known_b (raw : str) (o : cocc) : bool := (fst o <? length (gtable_known raw))%nat.
+
 Definition expected_quiet (raw : str) (os : list cocc) (missing : option nat) : bool :=
   starts_with_colon raw
-  || (forallb (fun o => (fst o <? length (gtable_known raw))%nat) os
-      && match missing with None => true | Some _ => false end).
+  || (forallb (known_b raw) os && match missing with None => true | Some _ => false end).
+
+(* the letters used as unknown options are unknown to the option string *)
+Definition AllUnknown (raw : str) (unknown : list N) : Prop :=
+  forall c, In c unknown -> judge raw c = GUnknown.
 
 (* ---- ORACLE --------------------------------------------------------------------- *)
 
